@@ -223,3 +223,57 @@ Theorem c19_sequence_with_visits_from_file : forall cmp f t b ops,
   seq2_reads_file cmp f (root_loc t) b ops = Some (srun_reads2 cmp t [] ops).
 Proof. exact LazySeq2Proofs.seq2_reads_file_spec. Qed.
 Print Assumptions c19_sequence_with_visits_from_file.
+
+(* ... and with Store.Flush INSIDE the run (LazySeq3.v): the memory after a Flush.  The state carries the file as the model
+   writes it and the trees of all collections; Flush reads nothing, what it wrote stays in memory at the offsets
+   Disk.write_tree assigned, and a later visit drops the flushed items like any other persisted item *)
+From GK Require Import Store DStoreRefine LazySeq3 LazySeq3Proofs.
+
+(* the Flush of the run model is the Flush of the byte-level store model of C02 *)
+Theorem c19_run_flush_is_dstore_flush : forall f size (cs : colls),
+  flush_trees f size (tmap cs) =
+  let '(f', s', cs') := flush_bytes f size cs in (f', s', tmap cs').
+Proof. exact LazySeq3Proofs.flush_trees_is_flush_bytes. Qed.
+Print Assumptions c19_run_flush_is_dstore_flush.
+
+Theorem c19_flush_reads_nothing : forall cmp name s, fst (sstep3 cmp name s SFlush) = [].
+Proof. exact LazySeq3Proofs.flush_step_reads_nothing. Qed.
+Print Assumptions c19_flush_reads_nothing.
+
+Theorem c19_flush_keeps_memory : forall cmp name s o,
+  mem_find o (ss_mem s) <> None -> mem_find o (ss_mem (snd (sstep3 cmp name s SFlush))) <> None.
+Proof. exact LazySeq3Proofs.flush_keeps_memory. Qed.
+Print Assumptions c19_flush_keeps_memory.
+
+(* a Flush is invisible to the ReadAt calls of the lookup that follows it: everything it wrote is in memory *)
+Theorem c19_lookup_after_flush_reads_the_same : forall cmp name s o,
+  (forall t, cs_get name (ss_colls s) = Some t -> rep (ss_file s) t /\ below t (ss_size s)) ->
+  lookup_op o = true ->
+  fst (sstep3 cmp name (snd (sstep3 cmp name s SFlush)) (S2 (S1 o))) = fst (sstep3 cmp name s (S2 (S1 o))).
+Proof. exact LazySeq3Proofs.lookup_after_flush_same_reads_gen. Qed.
+Print Assumptions c19_lookup_after_flush_reads_the_same.
+
+(* the invariant of a run with flushes: every tree is represented in the current file below the write position *)
+Theorem c19_run_with_flushes_invariant : forall cmp name s o,
+  inv3 s -> set_okb o = true -> totals_ok3 s o -> ss_size (snd (sstep3 cmp name s o)) < two63 ->
+  inv3 (snd (sstep3 cmp name s o)).
+Proof. exact LazySeq3Proofs.sstep3_inv. Qed.
+Print Assumptions c19_run_with_flushes_invariant.
+
+Theorem c19_run_with_flushes_keeps_records_disjoint : forall cmp name s o,
+  inv3 s -> disj3 s -> disj3 (snd (sstep3 cmp name s o)).
+Proof. exact LazySeq3Proofs.sstep3_disjoint. Qed.
+Print Assumptions c19_run_with_flushes_keeps_records_disjoint.
+
+(* over a whole run with flushes, no key-only call reads a byte of the value of any item persisted in the tree it runs
+   on -- the items the run itself flushed included *)
+Theorem c19_run_with_flushes_never_reads_values : forall cmp name ops s,
+  inv3 s -> disj3 s -> forallb key_only_op3 ops = true -> forallb set_okb ops = true -> run_ok3 cmp name s ops ->
+  Forall2 never_value (srun3 cmp name s ops) (srun3_trees cmp name s ops).
+Proof. exact LazySeq3Proofs.seq3_never_reads_values. Qed.
+Print Assumptions c19_run_with_flushes_never_reads_values.
+
+(* the hypotheses are satisfiable: a file written by the model's Flush and re-opened *)
+Theorem c19_run_with_flushes_example : exists s, seq3_start ex3_file = Some s /\ inv3 s /\ disj3 s.
+Proof. exact LazySeq3Proofs.seq3_example_inv. Qed.
+Print Assumptions c19_run_with_flushes_example.
